@@ -78,6 +78,40 @@ def mk_translate(k, ispriv, iswrite, texcb_sym=False, arch=7, regions=None, mode
     return fn
 
 
+INSTR_QUICK = ['LdrImmediateThumbT1', 'StrImmediateThumbT1', 'LdrbImmediateArmA1', 'StrbImmediateArmA1']
+INSTR_MORE = ['LdrdImmediateA1', 'StrdImmediateA1', 'LdrhImmediateT1', 'StrhImmediateT1', 'LdrRegisterT1', 'LdrexA1',
+              'StrexA1']
+
+
+def instr_units(tier):
+    """instruction level: loads/stores stepped through the real emulate_cycle with the MPU ON (one symbolic region,
+    SCTLR.BR symbolic, every mode) against the one-step oracle with the B5 protection rules in its memory helpers: a
+    denied access transfers nothing, writes nothing back and enters Abort mode at the vector with DFSR/DFAR set; an
+    allowed one behaves exactly as with the MPU off"""
+    from vf import famcheck, step
+    T = list(step.FAMILIES)
+    step.load_tables(T)
+    from spec.isa import ISA
+    rows = [r for r in INSTR_QUICK if r in ISA]
+    fams = set(ISA[r].family for r in rows)
+    us = famcheck.family_units(fams, [7], T, only=rows, tag='/mpu/32B', mpu=1, mpu_rsize=[4])
+    if tier == 'thorough':
+        more = [r for r in INSTR_MORE if r in ISA]
+        fams = set(ISA[r].family for r in rows + more)
+        us += famcheck.family_units(fams, [7], T, only=more, tag='/mpu/32B', mpu=1, mpu_rsize=[4])
+        us += famcheck.family_units(fams, [7], T, only=rows, tag='/mpu/256B-subregions', mpu=1, mpu_rsize=[7])
+        for puw in ((1, 1, 1), (0, 1, 0), (1, 0, 0)):
+            for u in famcheck.family_units(fams | {ISA['LdrImmediateArmA1'].family}, [7], T,
+                                           only=['LdrImmediateArmA1', 'StrImmediateArmA1'],
+                                           tag='/mpu/32B/P%dU%dW%d' % puw, mpu=1, mpu_rsize=[4],
+                                           fix={'P': puw[0], 'U': puw[1], 'W': puw[2]}):
+                us.append(u)
+    for u in us:
+        u.max_seconds = 3000
+        u.weight = 30
+    return us
+
+
 def units(tier, seed=0):
     us = []
     ks = [1, 2] if tier == 'quick' else [1, 2, 3]
@@ -106,8 +140,11 @@ def units(tier, seed=0):
                                                                     'w' if iswrite else 'r'), 'vf.c14', 'mk_translate',
                                    dict(k=12, ispriv=ispriv, iswrite=iswrite, regions=rs),
                                    max_paths=400000, max_seconds=3000, weight=10 ** len(rs)))
+    us += instr_units(tier)
     for ispriv in (False, True):
         for iswrite in (False, True):
+            if tier == 'quick' and ispriv != iswrite:
+                continue
             us.append(UnitSpec('translate_p/k1-texcb/%s/%s' % ('priv' if ispriv else 'user', 'w' if iswrite else 'r'),
                                'vf.c14', 'mk_translate', dict(k=1, ispriv=ispriv, iswrite=iswrite, texcb_sym=True),
                                max_seconds=1800, weight=20))
@@ -121,12 +158,16 @@ META = {
                    'unprivileged access made in every privileged mode, as LDRT/STRT do); outcome '
                    '(allowed / Background fault / Permission fault), DFSR.{FS,WnR}, DFAR and the frame compared with the '
                    'B5 pseudocode oracle (highest-numbered enabled hit region, subregion rule for sizes >= 256 bytes, '
-                   'AP table, background rule).',
+                   'AP table, background rule). Instruction level: byte/halfword/word/doubleword loads and stores are '
+                   'stepped through the real emulate_cycle with the MPU enabled and compared with the one-step oracle '
+                   '(denied access: no transfer, no write-back, Data Abort entry with DFSR/DFAR).',
     'bounds': ['k <= 2 simultaneously symbolic regions (quick), k <= 3 (thorough); MPUIR.DRegion = k',
                'MPUIR.DRegion = 12 (the configured number of regions) with 2 (thorough: up to 3) symbolic regions at '
                'stated indices incl. region 0 and region 11, all other regions disabled',
                'TEX/C/B/S held at one value per region except the k=1 units where they are symbolic',
-               'UNPREDICTABLE region programming (size < 4 bytes, misaligned base, AP=100/111) excluded'],
+               'UNPREDICTABLE region programming (size < 4 bytes, misaligned base, AP=100/111) excluded',
+               'instruction-level rows: one symbolic region of 32 bytes (thorough: also 256 bytes with subregions), '
+               'instruction fetch assumed permitted, a store faulting after its first byte excluded (UNKNOWN memory)'],
     'outside': ['more than 3 simultaneously symbolic regions (priority is pairwise; not proved for 12)',
                 'memory attributes (not part of C14)'],
     'stubs': stubs.STUBS_DOC,
